@@ -556,10 +556,14 @@ def rule_d(ctx: Context, R: Reporter):
                     if isinstance(a, ast.Name):
                         facts[a.id] = p
             for opt, flag in flag_of.items():
-                if flag is None or flag not in facts:
+                if flag is None:
                     continue
                 has = opt in tags
-                ok = (facts[flag] is True) == has or (opt == "blobs" and not has)  # blobs may be absent when none exist
+                if has:
+                    ok = facts.get(flag) is True  # returned only where the flag is known to be set
+                else:
+                    ok = facts.get(flag) is not True or opt == "blobs"  # blobs may be absent when none exist
+                facts.setdefault(flag, None)
                 R.check("C12.d", f"`{opt}` is returned exactly when `{flag}` is set", ok, fi, rn.stmt,
                         msg=f"{fi.short}: `{unparse(rn.stmt)[:60]}` is reached with {flag}={facts[flag]} but {'returns' if has else 'omits'} `{opt}`: positions in the returned tuple "
                             f"no longer mean what the caller asked for", key=f"flag-shape:{opt}:{','.join(map(str, tags))}")
